@@ -14,7 +14,8 @@ def splitNonEmpty (s : String) (sep : String) : List String :=
 
 def sortStrings (l : List String) : List String := (l.toArray.qsort (· < ·)).toList
 
-def parseFlags (s : String) : Flags := Flags.norm ((splitNonEmpty s ",").map String.toLower)
+/-- lower-cased, de-duplicated and sorted: every parsed flag list is canonical, so `==` is set equality -/
+def parseFlags (s : String) : Flags := sortStrings (Flags.norm ((splitNonEmpty s ",").map String.toLower))
 def showFlags (f : Flags) : String := if f.isEmpty then "-" else ",".intercalate (sortStrings f)
 
 def nat! (s : String) : Nat := s.toNat?.getD 0
